@@ -99,10 +99,12 @@ def split_prefix(leaf, start_pos):
         if value.endswith('\n') or value.endswith('\r'):
             line += 1
             column = -start
+            # The BOM has no width, but only the first line contains it.
+            bom = False
 
     if value:
         spacing = ''
     yield PrefixPart(
         leaf, 'spacing', spacing,
-        start_pos=(line, column + start)
+        start_pos=(line, column + start - int(bom))
     )
